@@ -10,8 +10,25 @@ Record rcase := mkRCase { rk_net : N; rk_chain : N; rk_range : N; rk_height : N;
                           rk_sigok : bool; rk_executed : bool }.
 
 (* the abstract key behind public-key bytes: an ETH secp256k1 key is the same key with or without the 0x04 prefix *)
+(* ... and a serialized BLS multi-signature key (lib/crypto MultiPublicKey: 1 = repeated member keys, 2 = bitmap, 3 = threshold) is
+   the same key under every encoding of that nested message: unknown fields, field order between different numbers and
+   non-minimal varints do not matter (member order does: it is part of the key the signers approved) *)
+Definition multi_key_abs (pk : bytes) : option bytes :=
+  match scan (length pk) pk with
+  | Some fs =>
+    let members := flat_map (fun e => if fst e =? 1 then match snd e with FBytes b => [b] | FVar _ => [] end else []) fs in
+    let bitmap := fold_left (fun acc e => if fst e =? 2 then match snd e with FBytes b => b | FVar _ => acc end else acc) fs [] in
+    let threshold := fold_left (fun acc e => if fst e =? 3 then match snd e with FVar v => v | FBytes _ => acc end else acc) fs 0 in
+    if Nat.leb 2 (length members)
+    then Some (concat (map (fun k => N.of_nat (length k) :: k) members) ++ [255; N.of_nat (length bitmap)] ++ bitmap ++ [255; threshold])
+    else None
+  | None => None
+  end.
 Definition key_bytes (pk : bytes) : bytes :=
-  match pk with 4 :: r => if Nat.eqb (length r) 64 then r else pk | _ => pk end.
+  match pk with
+  | 4 :: r => if Nat.eqb (length r) 64 then r else pk
+  | _ => if Nat.ltb 100 (length pk) then match multi_key_abs pk with Some a => a | None => pk end else pk
+  end.
 
 Definition model_accept (c : rcase) : bool :=
   match accept (fun _ _ _ => rk_sigok c) (fun _ => true) (mkRC (rk_net c) (rk_chain c) (rk_range c)) (rk_height c) (rk_prev c) (rk_bytes c) with
